@@ -56,7 +56,10 @@ def plan(tier):
 
 
 def run(tier, seed):
-    return check.run_configs('C01', plan(tier), seed, 150 if tier == 'quick' else 3000)
+    rep = check.run_configs('C01', plan(tier), seed, 150 if tier == 'quick' else 3000)
+    if tier == 'thorough':      # all interleavings (sleep sets) of the smallest configurations
+        rep.merge(check.run_por('C01', [C.cfg(2, C.CHAIN2, ['ok', 'ok'], 1), C.cfg(2, C.CHAIN2S, ['badupdate', 'ok'], 1), C.cfg(1, [], ['ok'], 2)], seed))
+    return rep
 
 
 def replay(case):
